@@ -82,6 +82,30 @@ static void build_catalogue() {
             ADD("cmplx array[vector<bool>]", fmt("n=%d mask=%d", n, m), keep(X(n)[std::vector<bool>((size_t)m, true)]));
         }
     }
+    // ---- an object used as its own operand / source (self-concatenation, self-assignment, moved-from objects, swap)
+    for (int n : {0, 1, 2, 5, 64, 1000}) {
+        std::string a = fmt("n=%d", n);
+        ADD("self: a |= a", a, arr_real t = R(n); t |= t; keep(t));
+        ADD("self: cmplx a |= a", a, arr_cmplx t = X(n); t |= t; keep(t));
+        ADD("self: a |= a twice", a, arr_real t = R(n); t |= t; t |= t; keep(t));
+        ADD("self: a | a", a, arr_real t = R(n); keep(t | t));
+        ADD("self: concatenate(a,a,a)", a, arr_real t = R(n); keep(concatenate(t, t, t)));
+        ADD("self: a = a", a, arr_real t = R(n); arr_real& u = t; t = u; keep(t));
+        ADD("self: a = std::move(a)", a, arr_real t = R(n); arr_real& u = t; t = std::move(u); keep(t));
+        ADD("self: moved-from array reused", a, arr_real t = R(n); arr_real v = std::move(t); t = R(n, 1); t |= v; keep(t); keep(v));
+        ADD("self: moved-from array read", a, arr_real t = R(n); arr_real v = std::move(t); keep((double)t.size()); keep(t + t); keep(v));
+        ADD("self: swap", a, arr_real t = R(n); arr_real v = R(n + 1, 1); std::swap(t, v); keep(t); keep(v));
+        ADD("self: a += a / a *= a", a, arr_real t = R(n); t += t; t *= t; t -= t; keep(t));
+        ADD("self: cmplx a /= a", a, arr_cmplx t = X(n); t += cmplx_t(2, 1); t /= t; keep(t));
+        ADD("self: a = a | a", a, arr_real t = R(n); t = t | t; keep(t));
+        ADD("self: a = a[idx of a]", a, arr_real t = R(n); std::vector<int> ix; for (int i = n - 1; i >= 0; --i) ix.push_back(i); t = t[ix]; keep(t));
+        if (n >= 2) {
+            ADD("self: a.slice = a.slice (same range)", a, arr_real t = R(n); t.slice(0, n) = t.slice(0, n); keep(t));
+            ADD("self: a = a.slice", a, arr_real t = R(n); t = t.slice(0, n - 1); keep(t));
+            ADD("self: a |= a.slice", a, arr_real t = R(n); t |= arr_real(t.slice(1, n)); keep(t));
+            ADD("self: zeropad(a) into a", a, arr_real t = R(n); t = zeropad(t, 2 * n + 1); keep(t));
+        }
+    }
     ADD("array[vector<int>]", "n=0 idx=[]", keep(R(0)[std::vector<int>{}]));
     ADD("array[vector<int>]", "n=0 idx=[0]", keep(R(0)[std::vector<int>{0}]));
     for (int n1 : {0, 1, 3, 8})
